@@ -47,7 +47,7 @@ func (c10) NumCases(tier string, _ int64) int {
 }
 func (c10) Exhaustive(string) bool { return false }
 func (c10) Floors(string) []runner.Floor {
-	return []runner.Floor{{Stat: "compactions_succeeded", Min: 500}, {Stat: "stale_requests_checked", Min: 1000}, {Stat: "refused_compactions_checked", Min: 200}}
+	return []runner.Floor{{Stat: "compactions_succeeded", Min: 500}, {Stat: "stale_requests_checked", Min: 1000}, {Stat: "refused_compactions_checked", Min: 200}, {Stat: "tiny_presenceless_compactions", Min: 100}}
 }
 
 type c10Worker struct{ *simWorker }
@@ -201,6 +201,10 @@ func (w *c10Worker) run(res *runner.CaseResult, idx int, seed int64, withDedup b
 		return
 	}
 	res.AddStat("compactions_succeeded", 1)
+	if pinned != nil && len(pinned.Steps) > 0 && pinned.Steps[0].NoPres {
+		res.AddStat("tiny_presenceless_compactions", 1)
+		res.AddSet("tiny_presenceless_log_lengths", fmt.Sprint(m1.rows))
+	}
 	res.AddSet("flavours", fmt.Sprint(flavour))
 	m2, _ := w.meta(world)
 	if m2.epoch != m1.epoch+1 {
@@ -339,6 +343,28 @@ func (w *c10Worker) run(res *runner.CaseResult, idx int, seed int64, withDedup b
 
 func (w *c10Worker) Run(idx int) runner.CaseResult {
 	res := runner.CaseResult{Case: fmt.Sprintf("c10-%d", idx)}
+	if idx%10 == 7 {
+		// tiny presenceless family: documents created with disable_presence, whose log holds
+		// nothing but 1..3 content changes (an attach stores no change of its own there), so
+		// that a compaction rewrites a log of the very length it produces
+		rng := caseRng(w.seed^0xc10e, idx)
+		h := sim.History{Cfg: sim.WorldCfg{Snap: []int64{0, 5}[rng.Intn(2)]}}
+		h.Steps = append(h.Steps, sim.Step{T: "attach", R: 0, NoPres: true}, sim.Step{T: "attach", R: 1, NoPres: true})
+		if idx%20 == 7 {
+			h.Steps = append(h.Steps, sim.Step{T: "attach", R: 2, NoPres: true})
+		}
+		h.Steps = append(h.Steps, sim.Step{T: "edit", R: 0, E: gen.InitEdits()}, sim.Step{T: "sync", R: 0})
+		for k := rng.Intn(3); k > 0; k-- {
+			r := rng.Intn(2)
+			h.Steps = append(h.Steps, sim.Step{T: "sync", R: r},
+				sim.Step{T: "edit", R: r, E: []gen.Edit{{Op: "obj.set", K: fmt.Sprintf("k%d", k), V: &gen.Val{T: "str", S: "v"}}}},
+				sim.Step{T: "sync", R: r})
+		}
+		h.Steps = append(h.Steps, sim.Step{T: "quiesce", R: 0})
+		res.AddStat("tiny_presenceless_cases", 1)
+		w.run(&res, idx, w.seed, false, &h)
+		return res
+	}
 	w.run(&res, idx, w.seed, false, nil)
 	return res
 }
